@@ -384,6 +384,35 @@ func c07Faults() []fault {
 			}
 			return ""
 		}},
+		{"key-unset", func(cfg *lib.Cfg, t ygot.GoStruct, rng *rand.Rand) string {
+			// unset an entry's key leaf while the map still holds the entry under its key
+			var cands []*lib.Node
+			for _, n := range cfg.Nodes(t) {
+				if n.IsEntry && !n.Keyless {
+					cands = append(cands, n)
+				}
+			}
+			for tries := 0; tries < 10 && len(cands) > 0; tries++ {
+				n := cands[rng.Intn(len(cands))]
+				kfs := n.Info.KeyFields()
+				ki := rng.Intn(len(kfs))
+				fv := n.V.Elem().Field(kfs[ki].Idx)
+				if fv.Kind() != reflect.Ptr || fv.IsNil() {
+					continue
+				}
+				fv.Set(reflect.Zero(fv.Type()))
+				kind := "map"
+				if n.Field.Kind == lib.KOrdered {
+					kind = "ordered-map"
+				}
+				multi := "single-key"
+				if len(kfs) > 1 {
+					multi = "multi-key"
+				}
+				return "key-unset:" + kind + ":" + multi
+			}
+			return ""
+		}},
 		{"leaf-list-duplicate", func(cfg *lib.Cfg, t ygot.GoStruct, rng *rand.Rand) string {
 			s, ok := pick(rng, sites(cfg, t, func(n *lib.Node, f *lib.FieldInfo, v reflect.Value) bool {
 				if f.Kind != lib.KLeafList || !isSet(v) || v.Len() == 0 || !f.Config {
@@ -603,5 +632,5 @@ func runC07(r *lib.Run) {
 			}
 		}
 	}
-	r.RequireCov("valid-accepted", "fault:range:int", "fault:length:string", "fault:pattern:string", "fault:enum-undefined:leaf", "fault:key-mismatch", "fault:leaf-list-duplicate", "fault:list-max", "fault:choice-two-cases", "fault:union-no-member")
+	r.RequireCov("valid-accepted", "fault:range:int", "fault:length:string", "fault:pattern:string", "fault:enum-undefined:leaf", "fault:key-mismatch", "fault:key-unset", "fault:leaf-list-duplicate", "fault:list-max", "fault:choice-two-cases", "fault:union-no-member")
 }
